@@ -427,7 +427,18 @@ func laExec(r *core.Run, c laCase) (*core.Fail, string) {
 	if c.mode == "safe" && (overlaps(res, A.Root) || (B != nil && overlaps(res, B.Root))) {
 		return core.F("alias-unexpected", "al", "%s: result shares storage with an operand", what), o.Class
 	}
-	return cmpArr(res, want, what, approx), o.Class
+	if f := cmpArr(res, want, what, approx); f != nil {
+		return f, o.Class
+	}
+	if dst != nil && res == dst && strings.HasPrefix(c.mode, "reuse") && c.mode != "reuse+incr" {
+		// the destination now holds a plain result: nothing of its earlier state (a pending lazy transpose) is left that
+		// a later UT - or a later product that looks at that bookkeeping - would act on
+		call(func() error { res.UT(); return nil })
+		if f := cmpArr(res, want, what+", after a following UT on the destination", approx); f != nil {
+			return f, o.Class
+		}
+	}
+	return nil, o.Class
 }
 
 func laRun(r *core.Run, c laCase) {
